@@ -227,3 +227,49 @@ FACETS = [
     Facet('torch/acq_mat', f_acqmat, strategy=lambda t: st_oplist('torch'), examples={'quick': 300, 'thorough': 8000}, backend='torch'),
     Facet('torch/poly-matmul', f_batchdot, strategy=lambda t: st_two_polys('torch'), examples={'quick': 300, 'thorough': 8000}, backend='torch'),
 ]
+
+
+def f_forms(case):
+    """A @ B for every combination of operand forms (Pauli, PauliMonomial, single-term / multi-term PauliPolynomial): the denoted operator is
+    the matrix product in *that* order with the product of the coefficients."""
+    be, N = case['be'], case['N']
+    Bk = B.backend(be)
+    pm = Bk.mods()['p']
+    la, ka = ref.parse(case['a']); lb, kb = ref.parse(case['b'])
+    ca, cb = gen.cplx(case['ca']), gen.cplx(case['cb'])
+
+    def mk(form, l, k, c):
+        if form == 'pauli':
+            return Bk.pauli(l, k), 1.0
+        if form == 'monomial':
+            return pm.PauliMonomial(B.np_g(l), int(k)).set_c(c), c
+        if form == 'poly1':
+            return Bk.poly(l[None, :], [k], [c]), c
+        return None, None
+    A, fa = mk(case['fa'], la, ka, ca)
+    Bb, fb = mk(case['fb'], lb, kb, cb)
+    R = A @ Bb
+    el, ek = ref.pmul(la, ka, lb, kb)
+    want = fa * fb * (1j ** int(ek))
+    name = type(R).__name__
+    if name in ('Pauli', 'PauliMonomial'):
+        l, k = Bk.read_pauli(R)
+        got = complex(getattr(R, 'c', 1.0)) * 1j ** k
+        check((l == el).all(), '%s(%s) @ %s(%s) has string %s expected %s' % (case['fa'], case['a'], case['fb'], case['b'], ref.show(l, 0), ref.show(el, 0)), 'forms-string')
+    else:
+        l, k = Bk.read_list(R)
+        check(l.shape[0] == 1 and (l[0] == el).all(), '%s @ %s gives terms %s' % (case['fa'], case['fb'], ref.show_list(l, k)), 'forms-string')
+        got = complex(Bk.num(R.cs)[0]) * 1j ** int(k[0])
+    check(abs(got - want) < 1e-6, '%s(%s, c=%r) @ %s(%s, c=%r): coefficient x phase = %r expected %r (order of the factors / coefficient lost?)' % (
+        case['fa'], case['a'], fa, case['fb'], case['b'], fb, got, want), 'forms-value')
+    return {'nt': bool(ref.anti(la, lb)) and (case['fa'] != 'pauli' or case['fb'] != 'pauli'), 'labels': [case['fa'] + '@' + case['fb']]}
+
+
+def st_forms(be, hiN, forms):
+    return st.integers(1, hiN).flatmap(lambda N: st.fixed_dictionaries(
+        {'be': st.just(be), 'N': st.just(N), 'a': gen.st_pauli(N), 'b': gen.st_pauli(N), 'fa': st.sampled_from(forms), 'fb': st.sampled_from(forms),
+         'ca': gen.st_coef(nonzero=True), 'cb': gen.st_coef(nonzero=True)}))
+
+
+FACETS.append(Facet('np/operand-forms', f_forms, strategy=lambda t: st_forms('np', 4, ['pauli', 'monomial', 'poly1']), examples={'quick': 1500, 'thorough': 60000}, shards={'quick': 1, 'thorough': 4}))
+FACETS.append(Facet('torch/operand-forms', f_forms, strategy=lambda t: st_forms('torch', 3, ['pauli', 'poly1']), examples={'quick': 200, 'thorough': 8000}, backend='torch'))
